@@ -4,7 +4,7 @@ import json, subprocess
 hook = subprocess.run("git -C /repo log --format=%h --grep='verification hooks' -n 1", shell=True, capture_output=True, text=True).stdout.strip()
 T = {
  "C01": ("bounded exhaustive enumeration of operand tuples vs. exact reference model",
-         "Every operand tuple of an explicitly defined finite space (complete small scope x 361 scale pairs, crossed boundary alphabets, overflow frontier solved for one operand, all 9 integer types in both positions, all reference forms and op-assign) is executed on the real code and compared with exact 512-bit arithmetic; unit tests sample a handful of points, this enumerates the whole bounded space including every alignment and range threshold from both sides.", "5 C01"),
+         "Every operand tuple of an explicitly defined finite space (complete small scope x 361 scale pairs, crossed boundary alphabets, overflow frontier solved for one operand, all 9 integer types in both positions, all reference forms incl. both references to one object, and op-assign) is executed on the real code and compared with exact 512-bit arithmetic; unit tests sample a handful of points, this enumerates the whole bounded space including every alignment and range threshold from both sides.", "5 C01"),
  "C02": ("bounded exhaustive enumeration x 8 rounding modes vs. exact reference model",
          "All operand tuples of the bounded spaces under every thread-default rounding mode, including the result-side frontier (cut-off digits exactly at 0, 1, half-1, half, half+1, 10^s-1 via modular inverses; products beyond 128 bits; the representability limit), compared with a single-rounding reference model defined on the truncated quotient.", "5 C02"),
  "C03": ("bounded exhaustive enumeration x 8 rounding modes vs. exact reference model",
@@ -16,15 +16,15 @@ T = {
  "C06": ("exhaustive enumeration of all strings over a 12-symbol alphabet to length 7/8, all 10^8 eight-digit chunks, structured long literals",
          "The grammar is decided completely on every string up to the bound (incl. every malformed tail); the SWAR digit path is enumerated exhaustively; long literals around 10^38, 2^127, 2^128, 2^256 and the wrap band are split at every position with 24 exponent forms; four entry points compared with a hand-written recogniser and 512-bit values.", "5 C06"),
  "C07": ("complete small scope + boundary alphabet, six producers and two consumers per value",
-         "Every (coefficient, scale) of the bounded space is printed by all producers (to_string, String::from, Into<String>, format!, Debug, serde_json) and parsed back (from_str, serde_json::from_str); compared with the canonical text built from the reference arithmetic.", "5 C07"),
+         "Every (coefficient, scale) of the bounded space is printed by all producers (to_string, String::from, Into<String>, format!, Debug, serde_json) and parsed back (from_str, serde_json::from_str); compared with the canonical text built from the reference arithmetic; plus boundary integral parts (word / digit-count boundaries) composed with fractions at every scale.", "5 C07"),
  "C08": ("bounded exhaustive enumeration of operand pairs x 10/14 relations; rkyv clause in two feature builds",
-         "All pairs of the bounded spaces incl. equal-value families (every re-expression, +-1 in the last place) and every sign pattern of alignment overflow, for 10 relations on Decimals and 14 per integer type and order; agreement of every enumerated pair with the exact order implies the order laws on the set; archive/deserialize identity and Archived comparisons in the derived and the manual (packed) Archive builds.", "5 C08"),
+         "All pairs of the bounded spaces incl. equal-value families (every re-expression, +-1 in the last place) and every sign pattern of alignment overflow, wrap-collision partners (c*10^k mod 2^128 / 2^127 / 2^64), for 10 relations on Decimals and 14 per integer type and order; agreement of every enumerated pair with the exact order implies the order laws on the set; archive/deserialize identity and Archived comparisons in the derived and the manual (packed) Archive builds.", "5 C08"),
  "C09": ("complete enumeration of values in every equal-valued representation",
-         "All |c|<=N x 19 scales, the complete 2-5-smooth lattice within +-(2^127-1) and the boundary alphabet, each re-expressed with every number of trailing zeros: as_integer_ratio/numerator/denominator/Hash against Euclid's reduced fraction and its digest.", "5 C09"),
+         "All |c|<=N x 19 scales, the complete 2-5-smooth lattice within +-(2^127-1) and the boundary alphabet, each re-expressed with every number of trailing zeros: as_integer_ratio/numerator/denominator/Hash (single value and as slice / Vec element, i.e. hash_slice) against Euclid's reduced fraction and its digest.", "5 C09"),
  "C10": ("bounded exhaustive enumeration of (dividend, divisor) incl. the special-path frontier",
          "All pairs of the bounded spaces plus the frontier of the two special paths (divisor scaling overflows; dividend scaling overflows / stepwise reduction with partial remainders next to M/10) for ~300 divisors x 361 scale pairs, operators, checked forms, %=, integer operands; oracle X - Y*trunc(X/Y) exactly.", "5 C10"),
  "C11": ("complete enumeration of (operand, precision, width, flag set, mode)",
-         "Value sweep: alphabet + rounding frontier x precision {absent,0..=40} x 8 modes; layout sweep: operands of all output lengths x 8 precisions x width {absent,0..=60} x 10 flag sets x 8 modes; oracle = single rounding + Rust's documented integer padding rules, bound to Rust itself on every scale-0 case.", "5 C11"),
+         "Value sweep: alphabet + rounding frontier x precision {absent,0..=40} x 8 modes; layout sweep: operands of all output lengths x 8 precisions x width {absent,0..=60} x 10 flag sets x 8 modes; oracle = single rounding + Rust's documented integer padding rules, bound to Rust itself on every scale-0 case; histories: a format call right after a formatting call whose sink failed part-way.", "5 C11"),
  "C12": ("complete small scope + float-midpoint construction for f64 and f32",
          "All |a|<=N x 19 scales, the coefficient alphabet, and coefficients constructed next to / on every float midpoint (every scale, every binary exponent in reach, a significand alphabet) compared bitwise with exact round-to-nearest-even; the oracle is cross-checked against Rust's correctly rounded parser on every case.", "5 C12"),
  "C13": ("exhaustive over all 2^32 f32 patterns (thorough); structured enumeration of f64 patterns incl. the tie zone",
@@ -38,7 +38,7 @@ T = {
  "C17": ("differential enumeration over every macro-generated implementation form",
          "Each of the ~700 trait implementations (9 integer types x 2 positions x 4 reference forms x 11+ operations, op-assign, int/int) is called statically and compared with the canonical by-value Decimal/Decimal call on boundary operands; no model needed.", "5 C17"),
  "C18": ("enumeration of literal programs compiled by the real proc macro and rustc",
-         "All literal programs of a bounded grammar are written into a generated crate; accepted ones are compiled and executed, rejected ones must each fail to compile (one located rustc error per invocation); oracle Decimal::from_str of the same text.", "5 C18"),
+         "All literal programs of a bounded grammar are written into a generated crate; accepted ones are compiled and executed, rejected ones must each fail to compile (one located rustc error per invocation) in the dev AND in the release profile (the proc macro is built without overflow checks there); oracle Decimal::from_str of the same text.", "5 C18"),
  "C19": ("stateless exploration of all interleavings of multi-threaded programs under a controlled scheduler on real OS threads",
          "All interleavings (no sampling) of 2-3 thread programs whose steps are public API calls, for all mode pairs/triples and 11 core rounding operation kinds (round, div_rounded, mul_rounded, *, /, quantize, Display with precision, and the four 256-bit-intermediate variants) plus 19 operand-form kinds (checked_round, checked_div, integer operands of / , checked_div and div_rounded in both positions, /=, *=, by-reference forms, Display with width), every schedule on fresh OS threads in a freshly forked process, every observation compared with a per-thread reference model; all script pairs of three steps over {Set(own), Set(HalfEven), Op}; thread termination as a scheduled, joined step (family F6); plus thread-death / spawn-order / no-inheritance histories.", "5 C19"),
  "C20": ("differential enumeration over the build-configuration matrix",
